@@ -3,8 +3,11 @@
 import json, os, sys
 sys.path.insert(0, os.path.dirname(os.path.abspath(__file__)))
 import props, manifest_meta as mm
+claimed = [l.strip() for l in open(os.path.join(os.path.dirname(os.path.abspath(__file__)), 'claimed.txt')) if l.strip() and not l.startswith('#')]
 checks = []
 for pid in sorted(props.PROPS):
+    if pid not in claimed:
+        continue
     meta = mm.META[pid]
     checks.append({
         "property_id": pid,
@@ -17,14 +20,14 @@ for pid in sorted(props.PROPS):
         "level_note": meta["note"],
         "technique": meta["technique"],
     })
-na = [{"property_id": pid, "reason": r} for pid, r in sorted(mm.NOT_APPLICABLE.items()) if pid not in props.PROPS]
+na = [{"property_id": pid, "reason": r} for pid, r in sorted(mm.NOT_APPLICABLE.items()) if pid not in claimed]
 m = {
     "version": 1,
     "setup_cmd": "./setup.sh",
     "hooks": {"guard": "verif", "enable": "go build -tags verif (add-only export_verif.go files listed in MANIFEST.hooks)",
               "baseline_off_cmd": "cd /repo && go test -mod=mod -vet=off -count=1 -timeout 25m ./...",
               "source_commits": mm.HOOK_COMMITS, "add_only": True},
-    "engines": [{"name": "coq-proof+correspondence", "path": "/verif/check", "serves_properties": sorted(props.PROPS),
+    "engines": [{"name": "coq-proof+correspondence", "path": "/verif/check", "serves_properties": sorted(claimed),
                  "kind_free_text": "Coq 8.16.1 theorems over Gallina models (coq/Cxx), translators regenerating tables from /repo (gen/), Go correspondence harness evaluated by vm_compute (harness/), property predicate evaluated on the real code through the public API (glue stream)"}],
     "checks": checks,
     "notes": mm.NOTES,
